@@ -57,13 +57,22 @@ func genCarrier(t *rapid.T, state int) Carrier {
 	if !rapid.Bool().Draw(t, "incheck") {
 		c.Slot = slotSeq
 	} else {
-		c.Slot = rapid.IntRange(slotPlanFirst, slotMax).Draw(t, "slot")
+		// the bypass group of the block (slot 6) a little more often: once it is Completed,
+		// WithRemoveCompletedSequences drops the block and clone.Plan takes its "no blocks left" path
+		c.Slot = rapid.SampledFrom([]int{1, 2, 3, 4, 5, 6, 6, 6, 7, 8, 9, 10}).Draw(t, "slot")
 	}
 	if state != stFresh {
 		c.Resp = rapid.IntRange(0, 2).Draw(t, "resp") == 2
 		if c.Resp {
 			c.FailedBefore = rapid.SampledFrom([]int{0, 0, 1}).Draw(t, "failedbefore")
 		}
+	}
+	switch state {
+	case stRunning:
+		// a mix of NotStarted / Running / Completed (/ Failed) actions: WithRemoveCompletedSequences removes some
+		c.Status = rapid.SampledFrom([]int{2, 2, 1, 3, 3, 3, 4, 0}).Draw(t, "status")
+	case stFailed:
+		c.Status = rapid.SampledFrom([]int{4, 3, 3, 1, 0}).Draw(t, "status")
 	}
 	return c
 }
@@ -73,6 +82,12 @@ func genLeakCase(t *rapid.T) *LeakCase {
 	lc.State = rapid.SampledFrom([]int{stFresh, stRunning, stCompleted, stCompleted, stFailed}).Draw(t, "state")
 	// a slice generator, so that the shrinker can drop carriers that do not matter
 	lc.Carriers = rapid.SliceOfN(rapid.Custom(func(t *rapid.T) Carrier { return genCarrier(t, lc.State) }), 1, 4).Draw(t, "carriers")
+	if lc.State != stFresh {
+		lc.FillGroups = rapid.Bool().Draw(t, "fillgroups")
+		if lc.FillGroups {
+			lc.FillStatus = rapid.SampledFrom([]int{0, 1, 2, 3, 4}).Draw(t, "fillstatus")
+		}
+	}
 	return lc
 }
 
@@ -108,7 +123,7 @@ func validLeak(lc *LeakCase) error {
 	}
 	for i := range lc.Carriers {
 		c := &lc.Carriers[i]
-		if c.Slot < 0 || c.Slot > slotMax || c.FailedBefore < 0 || c.FailedBefore > 2 {
+		if c.Slot < 0 || c.Slot > slotMax || c.FailedBefore < 0 || c.FailedBefore > 2 || c.Status < 0 || c.Status > 4 {
 			return fmt.Errorf("bad placement")
 		}
 		if c.T.K != kStruct {
@@ -281,13 +296,30 @@ func checkLeak(lc *LeakCase, res *vprop.Result) {
 		ops = append(ops, cloneOp{"Action", scopeOf([]*workflow.Action{a}), func(o ...clone.Option) any { return clone.Action(ctx, a, o...) }})
 	}
 
-	for _, keepState := range []bool{false, true} {
+	// Option sets. None contains WithKeepSecrets, whose doc comment says of the secure-tagged values "By default they are
+	// wiped when cloning": every clone made without it must be scrubbed. WithRemoveCompletedSequences reads the State of
+	// every object it meets, so it is used on stored plans only (all objects have a State there); objects are
+	// legitimately removed under it, so only the leak clause and "original left intact" are judged for those sets.
+	type optSet struct {
+		keepState, removeCompleted bool
+	}
+	sets := []optSet{{false, false}, {true, false}}
+	if lc.State != stFresh {
+		sets = append(sets, optSet{false, true}, optSet{true, true})
+		res.Label("rc:ran")
+	}
+	for _, set := range sets {
+		keepState := set.keepState
 		for _, op := range ops {
 			name := "clone." + op.name
 			var opts []clone.Option
 			if keepState {
 				name += "+WithKeepState"
-				opts = []clone.Option{clone.WithKeepState()}
+				opts = append(opts, clone.WithKeepState())
+			}
+			if set.removeCompleted {
+				name += "+WithRemoveCompletedSequences"
+				opts = append(opts, clone.WithRemoveCompletedSequences())
 			}
 			var out any
 			pv := func() (pv any) {
@@ -297,13 +329,20 @@ func checkLeak(lc *LeakCase, res *vprop.Result) {
 			}()
 			if pv != nil {
 				// no output, nothing leaked: label only
-				res.Label("panic:clone")
-				res.Label("panic:clone:" + panicClass(pv))
-				for e := range edgeSet {
-					if hardEdges[e] {
-						res.Label("panic:clone:shape-has:" + e)
+				if set.removeCompleted {
+					res.Label("panic:clone:remove-completed")
+					res.Label("panic:clone:remove-completed:" + op.name + ":" + panicClass(pv))
+				} else {
+					res.Label("panic:clone")
+					res.Label("panic:clone:" + panicClass(pv))
+					for e := range edgeSet {
+						if hardEdges[e] {
+							res.Label("panic:clone:shape-has:" + e)
+						}
 					}
 				}
+			} else if set.removeCompleted {
+				judgeRemoveCompleted(f, name, out, orig, op, keepState)
 			} else {
 				if isNilResult(out) {
 					res.Label("clone-returned-nil") // judged like any other result: its untagged data is gone
@@ -372,6 +411,116 @@ func judgeClone(f *failer, name string, out any, orig *builtPlan, scope map[int]
 		}
 		if !fnd.has(c) {
 			f.fail("C17/clone-untagged-lost:"+pathClass(c.Path), "%s: untagged canary %v (%s) is missing from the clone", name, c, describe(c, orig))
+		}
+	}
+}
+
+// judgeRemoveCompleted judges a clone made with WithRemoveCompletedSequences: only
+// (1) "A value held in a request or response field tagged coerce:"secure" never appears in the result of the default
+// clone operations". Objects are legitimately removed, so nothing is said about untagged data; a nil result (everything
+// removed) holds nothing and is fine.
+func judgeRemoveCompleted(f *failer, name string, out any, orig *builtPlan, op cloneOp, keepState bool) {
+	res := f.res
+	if isNilResult(out) {
+		res.Label("rc:result-nil")
+		return
+	}
+	// classification: which carriers' actions are still in the result (clones keep the action names)
+	left := map[int]bool{}
+	nilEntries := false
+	var visit func(acts []*workflow.Action)
+	visit = func(acts []*workflow.Action) {
+		for _, a := range acts {
+			if a == nil {
+				nilEntries = true
+				continue
+			}
+			for i, bc := range orig.carriers {
+				if bc.action.Name == a.Name {
+					left[i] = true
+				}
+			}
+		}
+	}
+	groups := func(gs ...*workflow.Checks) {
+		for _, g := range gs {
+			if g != nil {
+				visit(g.Actions)
+			}
+		}
+	}
+	block := func(b *workflow.Block) {
+		if b == nil {
+			return
+		}
+		groups(b.BypassChecks, b.PreChecks, b.ContChecks, b.PostChecks, b.DeferredChecks)
+		for _, sq := range b.Sequences {
+			if sq != nil {
+				visit(sq.Actions)
+			}
+		}
+	}
+	switch v := out.(type) {
+	case *workflow.Plan:
+		groups(v.BypassChecks, v.PreChecks, v.ContChecks, v.PostChecks, v.DeferredChecks)
+		for _, b := range v.Blocks {
+			block(b)
+		}
+		if len(v.Blocks) == 0 {
+			res.Label("rc:plan-returned-without-blocks")
+		}
+	case *workflow.Block:
+		block(v)
+	case *workflow.Sequence:
+		visit(v.Actions)
+	case *workflow.Checks:
+		visit(v.Actions)
+	case *workflow.Action:
+		visit([]*workflow.Action{v})
+	}
+	if nilEntries {
+		res.Label("rc:nil-action-entries-in-result")
+	}
+	if len(left) < len(op.scope) {
+		res.Label("rc:something-removed")
+	}
+	if len(left) > 0 {
+		res.Label("rc:something-left")
+	}
+	if len(left) > 0 && len(left) < len(op.scope) {
+		res.Label("rc:partly-removed")
+	}
+	for _, c := range orig.canaries {
+		if c.Secret && left[c.Carrier] && (!orig.carriers[c.Carrier].isResp || keepState) {
+			res.Label("rc:secure-canary-in-scope-of-result")
+			res.Label("rc:secure-canary-in-scope-of-result:" + op.name)
+			if pl, ok := out.(*workflow.Plan); ok && len(pl.Blocks) == 0 {
+				res.Label("rc:secure-canary-in-scope-of-result:Plan-without-blocks")
+			}
+			break
+		}
+	}
+
+	fnd := scanAny(out)
+	docs := map[string][]byte{}
+	if b, err := json.Marshal(out); err == nil {
+		docs["encoding/json"] = b
+	}
+	if b, err := jsonexp.Marshal(out); err == nil {
+		docs["go-json-experiment"] = b
+	}
+	for _, c := range orig.canaries {
+		if !c.Secret {
+			continue
+		}
+		if fnd.has(c) {
+			f.fail("C17/clone-leak:"+pathClass(c.Path)+":remove-completed", "%s: secure canary %v (%s) is present in the clone", name, c, describe(c, orig))
+			continue
+		}
+		for enc, doc := range docs {
+			if textHas(doc, c) {
+				f.fail("C17/clone-leak-json:"+pathClass(c.Path)+":remove-completed", "%s: secure canary %v (%s) is present in the %s encoding of the clone", name, c, describe(c, orig), enc)
+			}
 		}
 	}
 }
